@@ -534,6 +534,8 @@ func C05(rep *ev.Reporter, tier string) {
 	litN := c05Literals(rep, &mu)
 	scN, scNT := c05ShortCircuit(rep, tier)
 	nontrivial += scNT
+	swN := c05Sweep(rep, tier)
+	rep.Coverage["many_argument_sweep_evaluations"] = swN
 	nfN, nfNT := c05NonFinite(rep)
 	nontrivial += nfNT
 	scN += nfN
